@@ -242,6 +242,48 @@ Definition binary_le_PutUint16 (b : go_bytes) (lo v : Z) : go_bytes := bytes_spl
 Definition binary_le_PutUint32 (b : go_bytes) (lo v : Z) : go_bytes := bytes_splice b lo (le_bytes4 v).
 Definition binary_le_PutUint64 (b : go_bytes) (lo v : Z) : go_bytes := bytes_splice b lo (le_bytes8 v).
 
+(** * Loops (fourth round): [for i, x := range l { body }] and [for i := 0; i < len(l); i++ { body }]
+    whose body assigns locals, [continue]s or [return]s.  One iteration maps the state (the tuple of
+    the locals declared before the loop that the body assigns) to [LoopNext state'] (end of the body,
+    or [continue]) or to [LoopReturn r] (a [return r] inside the body: the FUNCTION returns r).
+    [go_range body i l s] runs the iterations over the elements of [l] from index [i], stopping at
+    the first [LoopReturn].  The translator prints
+        match go_range (fun i x state => body) 0 l state with
+        | LoopReturn r => r | LoopNext state => (the statements after the loop) end.
+    The range expression is evaluated once (Go: "the range expression is evaluated once before
+    beginning the loop"); the iteration variables are fresh in each iteration (the body cannot
+    change which elements are visited: it cannot assign the slice, which is not a local it may
+    store through, and a []byte it writes through is not ranged over in /repo's translated code).
+    [break], labels and [goto] are outside the subset. *)
+Inductive go_loop (S R : Type) : Type :=
+| LoopNext (s : S)
+| LoopReturn (r : R).
+Arguments LoopNext {S R} s.
+Arguments LoopReturn {S R} r.
+
+Fixpoint go_range {A S R : Type} (body : Z -> A -> S -> go_loop S R) (i : Z) (l : list A) (s : S) : go_loop S R :=
+  match l with
+  | [] => LoopNext s
+  | x :: tl =>
+      match body i x s with
+      | LoopNext s' => go_range body (i + 1) tl s'
+      | LoopReturn r => LoopReturn r
+      end
+  end.
+
+(** the indices of [for i := 0; i < n; i++]: n iterations, the element is not looked at *)
+Definition go_iota (n : Z) : list unit := repeat tt (Z.to_nat n).
+
+(** * Slices of structs / of pointers to structs: the list of the element values.
+    A [[]*S] is read as the list of the structs its elements point to: the elements are ASSUMED
+    non-nil and the identity of the pointers (aliasing between elements, or with other pointers) is
+    not represented - sound for functions that only READ through them.  A RESULT or LOCAL of type
+    [*S] is [option S] ([nil] = [None]); [p.f] on such a local is [S_f (go_deref zero_S p)]: the
+    nil-dereference panic is not modelled (the zero value is read).  Parameters and receivers of
+    type [*S] are the value pointed to, as before. *)
+Definition list_len {A : Type} (l : list A) : Z := Z.of_nat (length l).
+Definition go_deref {A : Type} (zero : A) (p : option A) : A := match p with Some x => x | None => zero end.
+
 (** * Slices kept as their length; strings; go/types.Typ *)
 Definition go_len := Z.
 Definition go_string := list Z.
